@@ -112,6 +112,7 @@ type gtTr struct {
 	cnt        []brkTarget // where `continue` goes
 	cfg        *gtCfg
 	loopIndex  map[ast.Node]int // for / range statements of the function, numbered in source order from 1
+	autoFuel   map[ast.Node]string // fuel measures of loops the translator itself writes (range over a string)
 	named      []string         // named results used as variables
 	loopCache  map[ast.Node]*loopCache
 	inMutCall  bool
@@ -595,6 +596,9 @@ func (tr *gtTr) libCall(c *ast.CallExpr, env *venv) (pkg, name string, ok bool) 
 		return "", "", false
 	}
 	path := importOf(tr.f, q.Name)
+	if q.Name == " utf8" {
+		path = "unicode/utf8" // written by runeRange in a file that does not import the package
+	}
 	if path == "" {
 		return "", "", false
 	}
@@ -1333,6 +1337,19 @@ func (tr *gtTr) makeCall(c *ast.CallExpr, env *venv) ex {
 				tr.fn.usesV = true
 			}
 			return ex{code: "(@nil " + paren(t.elem.coq()) + ")", typ: t, fresh: true}
+		}
+		// make([]T, n, cap) with a small constant n over an integer type: n zeros
+		if n, isInt := intLit(c.Args[1]); isInt && n > 0 && n <= 64 && t.elem.kind == kInt {
+			for _, a := range c.Args[2:] {
+				if e := tr.expr(a, env); len(e.binds) > 0 || e.typ.kind != kInt {
+					gtFail("make: capacity argument")
+				}
+			}
+			zs := make([]string, n)
+			for i := range zs {
+				zs[i] = "0%Z"
+			}
+			return ex{code: "[" + strings.Join(zs, "; ") + "]", typ: t, fresh: true}
 		}
 	}
 	if t.kind != kMap || !t.supported() {
